@@ -100,7 +100,10 @@ def run_rest_session(start, n, dt, comp, opts):
             r = client.post("/%s/stream-steps" % iid) if sb is None else client.post("/%s/stream-steps" % iid, json={"settings": sb})
             if r.status_code != 200:
                 return [("stream-steps-status", "%d %r" % (r.status_code, srv.body(r)))]
-            lst = srv.unpickle_json(srv.body(r))
+            try:
+                lst = srv.unpickle_json(srv.read_stream(r))
+            except srv.StreamOverflow as e:
+                return [("stream-steps-never-ends", "start=%r dt=%r n=%d calls=%r: %s" % (start, dt, n, comp, e))]
             if not isinstance(lst, list):
                 return [("stream-steps-body", str(lst)[:200])]
             for x in lst:
@@ -189,6 +192,23 @@ def run_batch_and_python(start, n, dt):
     chk("run_scenarios-dict", lambda eq: {float(k): v for k, v in dd[SM]["base"]["equations"][eq].items()})
     js = json.loads(b.run_scenarios(scenarios=["base"], scenario_managers=[SM], equations=EQS, return_format="json"))
     chk("run_scenarios-json", lambda eq: {float(k): v for k, v in js[SM]["base"]["equations"][eq].items()})
+    # a stepwise session on the object that has just done batch runs: a step setting still acts from its own step on
+    ref2, _ = reference(start, stop, dt, [(1, 5.0)])
+    b.begin_session(scenarios=["base"], scenario_managers=[SM], equations=EQS)
+    for i, t in enumerate(times):
+        r = b.run_step(settings=settings_body("v1") if i == 1 else None)
+        bad = False
+        for eq in EQS:
+            (tt, v), = r[SM]["base"][eq].items()
+            if not core.close(tt, float(t)) or not core.close(v, ref2.value(eq, t), rel=1e-9, ab=1e-9):
+                viol.append(("value/session-after-batch-run/%s" % eq, "%s: after run_scenarios on the same object, step %d with k:=5 given at step 1: %s(%r) = %r, reference %r" % (
+                    label, i, eq, tt, v, ref2.value(eq, t))))
+                bad = True
+                break
+        if bad:
+            break
+    b.end_session()
+    b = factory()
     app, client = srv.make_server(factory)
     r = client.post("/run", json={"scenario_managers": [SM], "scenarios": ["base"], "equations": EQS})
     rb = srv.body(r)
@@ -225,7 +245,7 @@ def run_batch_and_python(start, n, dt):
     return viol
 
 
-RUNSPECS = [(st, dt) for st in (0, 1) for dt in (1, 0.5, 0.25, 0.1)]
+RUNSPECS = [(st, dt) for st in (0, 1) for dt in (1, 0.5, 0.25, 0.1)] + [(-2, 1), (-1, 0.5), (-3, 1)]   # grids through and below zero too
 
 
 def jobs(tier):
@@ -271,7 +291,7 @@ def run(ctx):
                 ctx.violation("C09/%s/dt=%r/%s" % (clause, j[3], kinds), {"job": [j[0], j[1], j[2], j[3], [list(c) for c in j[4]] if j[4] else None, j[5]]}, detail)
     ctx.finish({
         "evaluations": len(js), "distinct_nontrivial": len(js),
-        "rule": "run specs start in {0,1} x dt in {1,.5,.25,.1} x N <= %d steps x all compositions of the N+1 grid points into run-step / run-steps(k) / "
+        "rule": "run specs start in {0,1} x dt in {1,.5,.25,.1} plus (start,dt) in {(-2,1), (-1,.5), (-3,1)} x N <= %d steps x all compositions of the N+1 grid points into run-step / run-steps(k) / "
                 "stream-steps(rest) x per-call settings over {no body, {}, k:=5, k:=0.5}; plus per run spec the batch run in df/dict/json, REST /run and the "
                 "Python session in nested/flat steps and all session_results modes" % (3 if ctx.tier == "quick" else 5),
         "samples": [list(map(str, j)) for j in js[:3]],
